@@ -424,6 +424,16 @@ def run(f, fixture, rep, cfg, tier):
             seq.append(("metadata", render(tpw.term(c.args[0]))))
         elif c.decl == "std::io::Write::write_all":
             seq.append(("bytes", render(tpw.term(c.args[1]))))
+        elif c.decl.endswith("Result::<T, E>::and_then") and len(c.args) == 2:
+            # `self.metadata.write(out).and_then(|()| out.write_all(&self.content))`: the closure runs after, and only after, the receiver succeeded
+            for lf in pw.origins(c.args[1], passthrough={}):
+                if lf["kind"] == "agg" and lf["stmt"]["rv"].get("ak") == "closure":
+                    cb_ = f.bodies.get(lf["stmt"]["rv"]["closure"])
+                    if cb_ is not None:
+                        tcb_ = TermBuilder(cb_, closure_env=True)
+                        for c2 in sorted(cb_.calls(), key=lambda x: x.bb):
+                            if c2.decl == "std::io::Write::write_all":
+                                seq.append(("bytes", render(tcb_.term(c2.args[1]))))
     rep.check(seq == [("metadata", "self.metadata"), ("bytes", "self.content")], "R1", "Package|write-sequence", "package = metadata, content", "Package::write emits %s" % seq, pw.span)
     pp = f.one("package::Package::parse")
     rte = [c for c in pp.calls() if c.decl == "std::io::Read::read_to_end"]
